@@ -160,6 +160,13 @@ pub(crate) fn fri_proof_of_work<
 ) -> F {
     let min_leading_zeros = config.proof_of_work_bits + (64 - F::order().bits()) as u32;
 
+    #[cfg(feature = "verif_hooks")]
+    if let Some(w) = crate::verif_hooks::pow_override::<F>() {
+        challenger.observe_element(w);
+        let _ = challenger.get_challenge();
+        return w;
+    }
+
     // The easiest implementation would be repeatedly clone our Challenger. With each clone, we'd
     // observe an incrementing PoW witness, then get the PoW response. If it contained sufficient
     // leading zeros, we'd end the search, and store this clone as our new challenger.
